@@ -297,6 +297,11 @@ def run_cbmc_once(o, info, backend, witness, timeout, outdir, cancel=None):
     env = dict(os.environ)
     if backend == 'cvc5int':
         env['PATH'] = os.path.join(VF, 'shim') + ':' + env['PATH']
+    # solver scratch files (e.g. the CNF handed to an external SAT solver) go to a private directory that is removed afterwards:
+    # a cancelled or timed-out back end would otherwise leave them behind in /tmp
+    tmpd = outfile + '.tmp'
+    shutil.rmtree(tmpd, ignore_errors=True); os.makedirs(tmpd, exist_ok=True)
+    env['TMPDIR'] = tmpd
     t0 = time.time()
     with open(outfile, 'w') as f:
         wrapped = ['bash', '-c', 'set -o pipefail; "$@" 2>&1 | grep -v "^Unwinding \\(loop\\|recursion\\)"', 'vf'] + cmd
@@ -315,6 +320,7 @@ def run_cbmc_once(o, info, backend, witness, timeout, outdir, cancel=None):
                 p.wait()
                 break
     dt = time.time() - t0
+    shutil.rmtree(tmpd, ignore_errors=True)
     text = open(outfile, errors='replace').read()
     res = dict(backend=backend, witness=witness, seconds=round(dt, 2), outfile=outfile, timed_out=timed_out, rc=p.returncode)
     mm = re.search(r'VF_RSS_KB=(\d+)', text)
